@@ -62,35 +62,44 @@ def inv_loop(st, delta, rules):
             + inv_delta(st, delta) + S.inv_sn(st, delta, rules, canonical=True))
 
 
+def _families(st):
+    """index fields grouped by what a public query can tell apart: relation, diagonal, order, own/all -- not the age"""
+    # the tuple set of a relation is read off its full new and old index; that the other copies agree with it is INV-struct (C04)
+    return {rel.name: [rel.full("new"), rel.full("old")] for rel in st.s.rels.values()}
+
+
 def observable_snapshot(st):
-    """what the public queries can see: every index table, union-find parents and lengths"""
+    """what a `condition: impl Fn(&Self) -> bool` can see through the public queries: for every index family the union of
+    its new and old copy, the representative of every element, and the number of elements (ages and path compression
+    are not observable)"""
+    c = V.CTX.c
+    U = V.CTX.U
     snap = {}
-    for rel in st.s.rels.values():
-        for ix in rel.indices:
-            snap[ix.field] = dict(st.table(ix.field).cells)
+    for key, ixs in _families(st).items():
+        cells = {}
+        for ix in ixs:
+            for t, l in st.table(ix.field).cells.items():
+                cells[t] = c.or2(cells.get(t, F), l)
+        snap[key] = cells
     for t in st.s.types:
-        pv = st.uf(t).f["parents"]
-        snap["uf." + t] = (list(pv.s), pv.n)
+        snap["uf." + t] = ([st.root_of(t, i, U) for i in range(U)], st.nelems(t))
     return snap
 
 
 def same_observable(st, snap):
     c = V.CTX.c
+    cur = observable_snapshot(st)
     out = T
-    for rel in st.s.rels.values():
-        for ix in rel.indices:
-            cur = st.table(ix.field).cells
-            old = snap[ix.field]
-            for t in set(cur) | set(old):
-                out = c.and2(out, c.iff(cur.get(t, F), old.get(t, F)))
+    for key in _families(st):
+        a, b = cur[key], snap[key]
+        for t in set(a) | set(b):
+            out = c.and2(out, c.iff(a.get(t, F), b.get(t, F)))
     for t in st.s.types:
-        pv = st.uf(t).f["parents"]
-        s0, n0 = snap["uf." + t]
-        out = c.and2(out, V.int_eq(pv.n, n0))
-        for a, b in zip(pv.s, s0):
-            if a is V.UNDEF or b is V.UNDEF:
-                continue
-            out = c.and2(out, V.int_eq(a, b))
+        r1, n1 = cur["uf." + t]
+        r0, n0 = snap["uf." + t]
+        out = c.and2(out, V.int_eq(n1, n0))
+        for i, (a, b) in enumerate(zip(r1, r0)):
+            out = c.and2(out, c.implies(V.int_lt(i, n0), V.int_eq(a, b)))
     return out
 
 
